@@ -211,6 +211,7 @@ struct INode {
 	virtual void planRead(int region, std::vector<TaskV>& out) const = 0;
 	virtual void reset() = 0;
 	virtual void attachLogger(bool on) = 0;
+	virtual void setSaveFill(uint8_t v) = 0;                      // what the serial buffer holds before save() (a reused buffer)
 	virtual void save(std::vector<uint8_t>& out) const = 0;
 	virtual void load(const std::vector<uint8_t>& in) = 0;
 	virtual void previous(std::vector<Tr>& out) const = 0;
@@ -244,6 +245,7 @@ const std::vector<NodeFactory>& factories();
 // assertion / break handler state (per thread: workers are single-threaded processes, but keep it tidy)
 struct AssertHit { std::string expr, file; int line = 0; };
 extern thread_local std::vector<AssertHit>* g_assertSink;
+extern thread_local bool (*g_assertPolicy)(const char* expr);   // true: end the run here (jump); false: record and let the library carry on
 extern thread_local std::jmp_buf* g_assertJump;   // armed during a run: the first assertion hit ends the run (the library would continue into undefined behaviour)
 extern thread_local long g_libAllocs;     // allocations observed while inside a library call
 extern thread_local int  g_inLibrary;     // >0 while executing library code on behalf of an API call
